@@ -334,7 +334,9 @@ def spec_operator_views(ck, db, name, fns, classes, in_range=False):
 
 
 VIEW_DYNAMIC = {'Index'}          # index out of range is one of the property's allowed dynamic errors
-VIEW_OPS = {'Index': [('array', 'lit'), ('bound_array', 'lit'), ('array', 'bound'), ('bound_array', 'bound'), ('lit', 'lit'), ('bound', 'lit'), ('array_bound', 'lit')],
+VIEW_OPS = {'If': [('lit', 'lit', 'lit'), ('bound', 'lit', 'lit'), ('lit', 'bound', 'lit'), ('lit', 'lit', 'bound'), ('bound', 'bound', 'bound'), ('shadowed', 'lit', 'lit'),
+                   ('lit', 'array', 'bound_array')],
+            'Index': [('array', 'lit'), ('bound_array', 'lit'), ('array', 'bound'), ('bound_array', 'bound'), ('lit', 'lit'), ('bound', 'lit'), ('array_bound', 'lit')],
             'IsMemberOf': [('lit', 'array'), ('bound', 'array'), ('lit', 'array_bound'), ('bound', 'array_bound'), ('lit', 'bound_array'), ('lit', 'lit')]}
 
 
@@ -342,7 +344,7 @@ def spec_views(ck, db, thorough=False):
     ops = operators(db)
     done = []
     for name in sorted(ops):
-        if name in ('Scope', 'Test', 'Access', 'Like', 'NotLike', 'Split', 'StringConcat', 'If'):
+        if name in ('Scope', 'Test', 'Access', 'Like', 'NotLike', 'Split', 'StringConcat'):
             continue
         n = ARITY.get(name, 2)
         if name in VIEW_OPS:
